@@ -888,20 +888,10 @@ static void cfg_dropval(cfg_opt_t *opt, cfg_value_t *val)
 	}
 }
 
-DLLIMPORT cfg_value_t *cfg_setopt(cfg_t *cfg, cfg_opt_t *opt, const char *value)
+/* Find or create the value slot that cfg_setopt() is going to fill */
+static cfg_value_t *cfg_setopt_slot(cfg_t *cfg, cfg_opt_t *opt, const char *value)
 {
 	cfg_value_t *val = NULL;
-	int b;
-	const char *s;
-	double f;
-	long int i;
-	void *p;
-	char *endptr;
-
-	if (!cfg || !opt) {
-		errno = EINVAL;
-		return NULL;
-	}
 
 	if (opt->simple_value.ptr) {
 		if (opt->type == CFGT_SEC) {
@@ -960,6 +950,25 @@ DLLIMPORT cfg_value_t *cfg_setopt(cfg_t *cfg, cfg_opt_t *opt, const char *value)
 		}
 	}
 
+	return val;
+}
+
+DLLIMPORT cfg_value_t *cfg_setopt(cfg_t *cfg, cfg_opt_t *opt, const char *value)
+{
+	cfg_value_t *val = NULL;
+	int b;
+	const char *s;
+	double f;
+	long int i;
+	void *p;
+	char *endptr;
+
+	if (!cfg || !opt) {
+		errno = EINVAL;
+		return NULL;
+	}
+
+	/* the value is converted first: a refused value must leave the option untouched */
 	switch (opt->type) {
 	case CFGT_INT:
 		if (opt->parsecb) {
@@ -1022,6 +1031,9 @@ DLLIMPORT cfg_value_t *cfg_setopt(cfg_t *cfg, cfg_opt_t *opt, const char *value)
 				return NULL;
 			}
 		}
+		val = cfg_setopt_slot(cfg, opt, value);
+		if (!val)
+			return NULL;
 		val->number = i;
 		break;
 
@@ -1045,6 +1057,9 @@ DLLIMPORT cfg_value_t *cfg_setopt(cfg_t *cfg, cfg_opt_t *opt, const char *value)
 				return NULL;
 			}
 		}
+		val = cfg_setopt_slot(cfg, opt, value);
+		if (!val)
+			return NULL;
 		val->fpnumber = f;
 		break;
 
@@ -1062,6 +1077,9 @@ DLLIMPORT cfg_value_t *cfg_setopt(cfg_t *cfg, cfg_opt_t *opt, const char *value)
 			return NULL;
 		}
 
+		val = cfg_setopt_slot(cfg, opt, value);
+		if (!val)
+			return NULL;
 		free(val->string);
 		val->string = strdup(s);
 		if (!val->string)
@@ -1069,6 +1087,9 @@ DLLIMPORT cfg_value_t *cfg_setopt(cfg_t *cfg, cfg_opt_t *opt, const char *value)
 		break;
 
 	case CFGT_SEC:
+		val = cfg_setopt_slot(cfg, opt, value);
+		if (!val)
+			return NULL;
 		if (is_set(CFGF_MULTI, opt->flags) || val->section == NULL) {
 			if (val->section) {
 				val->section->path = NULL; /* Global search path */
@@ -1140,6 +1161,9 @@ DLLIMPORT cfg_value_t *cfg_setopt(cfg_t *cfg, cfg_opt_t *opt, const char *value)
 				return NULL;
 			}
 		}
+		val = cfg_setopt_slot(cfg, opt, value);
+		if (!val)
+			return NULL;
 		val->boolean = (cfg_bool_t)b;
 		break;
 
@@ -1151,6 +1175,12 @@ DLLIMPORT cfg_value_t *cfg_setopt(cfg_t *cfg, cfg_opt_t *opt, const char *value)
 
 		if ((*opt->parsecb) (cfg, opt, value, &p) != 0)
 			return NULL;
+		val = cfg_setopt_slot(cfg, opt, value);
+		if (!val) {
+			if (p && opt->freecb)
+				opt->freecb(p);
+			return NULL;
+		}
 		if (val->ptr && opt->freecb)
 			opt->freecb(val->ptr);
 		val->ptr = p;
